@@ -379,7 +379,7 @@ SUBCHECKS = [
                   "junctions-a-fraction-of-a-unit-apart": 33, "near-miss-far-from-the-origin": 20,
                   "junction-mode-through-the-deprecated-keyword": 100, "shared-column-narrower-in-the-first-tree": 78,
                   "trees-inspected-before-the-operation": 200, "extra-column-under-an-eswc-name": 65,
-                  "translation-by-a-tiny-offset": 37}),
+                  "translation-by-a-tiny-offset": 25}),
     Sub("path", path_case, run_path, quick=600, thorough=3000, shards_quick=2,
         required={"path-len>=3": 50, "path-types-not-a-palindrome": 50}),
 ]
